@@ -89,7 +89,9 @@ def _values(ctx, step):
     }
 
 
-def _mk_mo(ctx, O, tag):
+def _mk_mo(ctx, O, tag, noocc=False):
+    if noocc:
+        return O.MolecularOrbitals("restricted", 2, 2)      # orbitals without occupation numbers
     occ = ctx.real_array(f"{tag}occ", (2,), lo=0, hi=2)
     return O.MolecularOrbitals("restricted", 2, 2, occ)
 
@@ -98,7 +100,7 @@ OPS_QUICK = [
     ("atnums", None), ("atnums", "A2"), ("atnums", "B2"), ("atnums", "A3"),
     ("atcorenums", None), ("atcorenums", "core2"), ("atcorenums", "core3"),
     ("charge", None), ("charge", "real"), ("nelec", None), ("nelec", "real"),
-    ("spinpol", "real"), ("mo", None), ("mo", "MO"),
+    ("spinpol", "real"), ("mo", None), ("mo", "MO"), ("mo", "MO-noocc"),
     ("atcoords", None), ("atcoords", 2), ("atcoords", 3),
     ("read", "charge"), ("read", "all"),
 ]
@@ -211,6 +213,8 @@ def h_history(ctx, ctor=(), depth=2, ops="quick", twin=False, op0=None):
                 val = ctx.real(f"{s}{attr}", lo=-10, hi=30)
             elif vk == "MO":
                 val = _mk_mo(ctx, O, s)
+            elif vk == "MO-noocc":
+                val = _mk_mo(ctx, O, s, noocc=True)
             elif attr in ("atcoords", "atgradient"):
                 val = np.zeros((vk, 3))
             elif attr == "atmasses":
@@ -296,8 +300,12 @@ def h_history(ctx, ctor=(), depth=2, ops="quick", twin=False, op0=None):
             ctx.oblige("charge=sum(core)-nelec", o1["charge"] is not None and ctx.eq(o1["charge"], tot - o1["nelec"]))
         # (4) orbitals decide nelec / spinpol
         if spec.mo is not None:
-            ctx.oblige("mo-decides-nelec", ctx.eq(o1["nelec"], sum(list(spec.mo.occs), 0.0)))
-            ctx.oblige("mo-decides-spinpol", ctx.eq(o1["spinpol"], spec.mo.spinpol))
+            if spec.mo.occs is None:
+                ctx.oblige("mo-decides-nelec", o1["nelec"] is None, cls="orbitals-without-occupations")
+                ctx.oblige("mo-decides-spinpol", o1["spinpol"] is None, cls="orbitals-without-occupations")
+            else:
+                ctx.oblige("mo-decides-nelec", ctx.eq(o1["nelec"], sum(list(spec.mo.occs), 0.0)))
+                ctx.oblige("mo-decides-spinpol", ctx.eq(o1["spinpol"], spec.mo.spinpol))
         # (5) per-atom arrays agree
         lens = {k: len(o1[k]) for k in PER_ATOM if o1[k] is not None}
         ctx.oblige("per-atom-arrays-agree", len(set(lens.values())) <= 1 and
